@@ -282,8 +282,10 @@ pub fn replay_dig_file(path: &str, seed: u64) -> J {
 }
 
 /// label renamings: (A, B, t, u) -> ...; `<x>_out` follows `<x>`
-const RENAMINGS: [[&str; 4]; 5] = [
+const RENAMINGS: [[&str; 4]; 6] = [
     ["A", "B", "t", "u"],
+    // characters that some definitions of white space include, but not the header's (space, tab, CR, FF, LF): part of the name
+    ["A\u{a0}x", "\u{2003}B", "t\u{3000}t", "u\u{2028}"],
     ["bus_out_en", "B_outer", "t_out", "u"],
     ["Bits", "Label", "Testdata", "Label"],
     ["InDefault", "Testdata", "Bits", "In"],
@@ -324,7 +326,7 @@ fn rename_behaviour(b: &J, k: usize) -> J {
         }
     };
     // the model's one explicit width (4) stands for any width: DigParse only copies it
-    let width = [4u64, 8, 64, 63, 17][k];
+    let width = [4u64, 2, 8, 64, 63, 17][k];
     let rew = |v: &mut J| {
         if v.as_u64() == Some(4) {
             *v = json!(width);
